@@ -11,12 +11,22 @@ field_type('BIOGEME', 'weight', 'Expression | None')
 field_type('BIOGEME', 'formulas', 'dict[str, Expression]')
 field_type('BIOGEME', 'id_manager', 'IdManager')
 field_type('IdManager', 'free_betas_values', 'list[float]')
+field_type('Expression', 'children', 'list[Expression]')
 
 # induction hypothesis of the virtual descent (the leaf Beta.change_init_values is proved in c03_byname)
 contract(EX + '.change_init_values', 'C03', verify=False, types={'betas': 'dict[str, float]'},
-         modifies=['*.initValue'], ensures={'t': 'True'},
+         modifies=['*.initValue'], ensures={'t': 'True', 'told': 'c03m4_told(self, betas)'},
          label='Expression.change_init_values(abstract)',
-         note='abstract contract of the virtual descent: touches only the initial value of Beta objects')
+         note='abstract contract of the virtual descent: touches only the initial value of Beta objects; round 3 (m4): leaves the EVENT '
+              'c03m4_told(formula, dictionary) (uninterpreted; only a call can establish it), so that the callers can be obliged to run the descent')
+
+# round 3 (m4): the inductive step of the descent - the inherited body, verified for a receiver class that overrides neither
+# change_init_values nor get_children (only Beta and MultipleExpression override; the key ...@BinaryOperator keeps calls on receivers of
+# static class Expression on the abstract contract above): every child is shown the dictionary.
+contract(EX + '.change_init_values', 'C03', self_class='BinaryOperator', label='Expression.change_init_values(body)',
+         types={'betas': 'dict[str, float]'}, modifies=['*.initValue'],
+         ensures={'every_child_is_shown_the_dictionary': 'forall(lambda q: c03m4_told(self.children[q], betas), 0, len(self.children))'},
+         invariants={1: {'clauses': {'shown_so_far': 'forall(lambda q: c03m4_told(self.children[q], betas), 0, _k)'}}})
 
 _NAMES = 'self.id_manager.free_betas.names'
 _VALS = 'self.id_manager.free_betas_values'
@@ -34,8 +44,13 @@ contract(BG + '.change_init_values', 'C03', replay=RP.CHANGE_INIT,
                  f'forall(lambda q: implies({_NAMES}[q] not in betas, {_VALS}[q] == old({_VALS}[q])), 0, len({_NAMES}))',
              'names_unchanged': f'seq_eq({_NAMES}, old({_NAMES}))',
              'no_other_list_touched': f'c03c_only_list_changed(old({_VALS}))',
+             # round 3 (m4): the dictionary reaches the Beta objects of EVERY formula of the model (must-call obligations on the descent)
+             'log_likelihood_is_shown_the_dictionary': 'implies(self.log_like is not None, c03m4_told(self.log_like, betas))',
+             'weight_is_shown_the_dictionary': 'implies(self.weight is not None, c03m4_told(self.weight, betas))',
+             'every_formula_is_shown_the_dictionary':
+                 'forall(lambda q: c03m4_told(self.formulas[keys_of(self.formulas)[q]], betas), 0, len(self.formulas))',
          },
-         invariants={1: {'clauses': {}},
+         invariants={1: {'clauses': {'shown_so_far': 'forall(lambda q: c03m4_told(self.formulas[keys_of(self.formulas)[q]], betas), 0, _k)'}},
                      2: {'clauses': {
                          'done_named': f'forall(lambda q: implies({_NAMES}[q] in betas, {_VALS}[q] == betas[{_NAMES}[q]]), 0, _k)',
                          'done_unnamed': f'forall(lambda q: implies({_NAMES}[q] not in betas, {_VALS}[q] == old({_VALS}[q])), 0, _k)',
@@ -63,7 +78,7 @@ contract(RS + 'RawResults.__init__', 'C03', replay=RP.RESULTS,
                                     f'the_model.id_manager.free_betas.indices[{_MN}[q]] == q, 0, len({_MN}))',
                    'indices_in_range': "forall(lambda x: implies(x in the_model.id_manager.free_betas.indices, "
                                        f"0 <= the_model.id_manager.free_betas.indices[x] < len({_MN})), ty='str')"},
-         check_frame=False, check_safe=False,
+         check_frame=False,
          ensures={
              'names_are_the_sorted_names': f'self.betaNames is {_MN}',
              'one_entry_per_parameter': f'len(self.betas) == len({_MN})',
